@@ -692,6 +692,11 @@ class Engine:
                 raise Unsupported("int.%s" % attr)
             else:
                 yield ("raise", Exc(AttributeError), st)
+        elif type(o).__name__ == "MatchObj":
+            if attr == "group":
+                yield ("val", StrMethod(o, "group"), st)
+            else:
+                raise Unsupported("match.%s" % attr)
         elif isinstance(o, Unknown):
             raise Unsupported("attribute of opaque value")
         else:
@@ -893,6 +898,8 @@ class Engine:
         raise Unsupported("is on %r %r" % (a, b))
 
     def contains(self, container, x, st):
+        if hasattr(container, "pyvc_contains"):
+            return container.pyvc_contains(self, x)
         if isinstance(container, (list, tuple)):
             if not container:
                 return z3.BoolVal(False)
